@@ -1327,6 +1327,11 @@ func (c *Component) installInMemoryState(sess *SessionState) {
 			sess.lcp.FSM().Restore()
 		}
 		if sess.ipcp != nil && sess.IPv4Address != nil {
+			// initPPP built a fresh IPCP object: without the assignment it
+			// would run in its "nothing to assign" mode and acknowledge any
+			// address the CPE proposes should it renegotiate IPCP.
+			sess.ipcp.SetPeerAddress(sess.IPv4Address)
+			sess.ipcp.SetDNS(sess.DNS1, sess.DNS2)
 			sess.ipcp.FSM().Restore()
 			sess.ipcpOpen = true
 		}
